@@ -118,7 +118,8 @@ ADD = {
     "C06": " The finalize guard (last buffer written only when its frame number differs from the frame count) is modelled; the conservation theorems carry the hypothesis that every NAL's frame label is below the frame count, mux_drops_trailing_nals states what happens otherwise (a generated family checks it against the CLI).",
     "C07": " The finalize guard of inject-rpu is modelled (nFrames); inject_spec / inject_keeps_other_nals / inject_one_rpu_per_frame carry the hypothesis that every NAL's frame label is below the frame count, inject_drops_trailing_nals states what happens otherwise.",
     "C09": TIE + "C09.source_l6_levels_agree (source_meta_from_l6). Allocation is not modelled: an astronomically large duplicate length fails in Vec::splice (named in DESIGN P2.9).",
-    "C10": TIE + "C10.source_l1_clamp_agrees (clamp_values_int with its limits), source_l6_levels_agree. Fixed finding 40027ee (allocation before the length check) is guarded by the huge-inconsistent-length family.",
+    "C10": TIE + "C10.source_l1_clamp_agrees (clamp_values_int with its limits), source_l6_levels_agree. Fixed findings 40027ee (allocation before the length check) and 3502e27 (malformed HDR10+ summaries panicked) are guarded by generator families. The HDR10+ and madVR source paths are modelled on decoded integer inputs (Model/GenSources.lean; the f64 parts are the named parameter PqCode) with 22 theorems; vlib/madvrgen.py builds measurement files with an independent decoder and oracle; three panics of the third-party madvr_parse reader are known findings.",
+    "C11": " Document level: Model/XmlDoc.lean (Doc -> Config -> RPUs, written from parser.rs: version classes, HOME filter, known trim targets, shot sorting, frame edits, global blocks) with the doc_* theorems; every generated document also goes through the model (xml.doc) and is compared with the CLI byte for byte except at recorded rounding-tie sites. XML text parsing (roxmltree) and the f32/f64 arithmetic remain parameters.",
     "C12": TIE + "C12.source_sort_key_agrees: every level's sort_key() as it stands in the source is the model's Block.sortKey.",
     "C15": TIE + "C15.source_t35_header_agrees (ITU_T35_DOVI_RPU_PAYLOAD_HEADER).",
     "C17": " Piped input is part of 'same inputs': convert/demux/remove/extract-rpu --start-code annex-b on a stream whose first access unit exceeds the read chunk are fed through stdin with a different write size and pacing per process.",
